@@ -225,6 +225,24 @@ def run(ctx):
                 ctx.spec_fail('convert|where|rows-handed-on', 'rows that convert(where=...) leaves alone are not handed on as plain rows: '
                               'the next operator does not pad them with its own `missing`',
                               {'table': repr(T), 'then': name, 'real': got, 'want': want, 'row types': sorted({type(r).__name__ for r in v})})
+    # ---- sub(): every form of pattern and replacement is re.sub applied to the one field
+    import re as _re
+    for ci in range(120 if ctx.thorough() else 30):
+        T = [['a', 'b']] + [[rng.choice(['xax', 'aa', 'b.b', 'a\\b', '', 'AbA']), rng.choice(['a', 'z'])] for _ in range(rng.choice([1, 2, 4]))]
+        pat = rng.choice(['a', 'b', '.', 'a+', '(a)(x)?', 'A', '\\\\'])
+        repl = rng.choice(['Z', '', r'\g<0>\g<0>', r'[\g<0>]', r'\\', r'\n', 'a', lambda m: m.group(0).upper()] + ([r'<\1>'] if '(' in pat else []))
+        count = rng.choice([0, 0, 1])
+        flags = rng.choice([0, 0, _re.I])
+        try:
+            want = util.show_out([('a', 'b')] + [(_re.sub(pat, repl, r[0], count=count, flags=flags), r[1]) for r in T[1:]])
+        except Exception:   # noqa
+            continue
+        got = util.run_show(lambda: etl.sub(T, 'a', pat, repl, count=count, flags=flags))
+        ctx.case(('sub', repr(T), pat, repr(repl), count, flags))
+        ctx.count('op:sub')
+        if got != want:
+            ctx.spec_fail('sub|wrong-cells', 'sub does not apply re.sub(pattern, repl) to the cells of the field (and to nothing else)',
+                          {'table': repr(T), 'pattern': pat, 'repl': repr(repl), 'count': count, 'flags': int(flags), 'real': got, 'want': want})
     # ---- several converters in one call (dict and positional list), every converter form: each field gets its own converter
     FORMS = [('upper', lambda v: v.upper()), ('lower', lambda v: v.lower()), ('strip', lambda v: v.strip()),
              (('replace', 'a', 'Z'), lambda v: v.replace('a', 'Z')), (['ljust', 4, '.'], lambda v: v.ljust(4, '.')),
